@@ -36,7 +36,12 @@ Inductive c07case :=
 | CEnum (e : enum_decl) (v : verdict) (imports : list string) (exts : list string)
 (* one service alone in a file: imports of the generated service file, extension names on the service,
    its methods and the request/response messages (not on their fields) *)
-| CService (sv : service) (v : verdict) (imports : list string) (exts : list string).
+| CService (sv : service) (v : verdict) (imports : list string) (exts : list string)
+(* one topic alone in a file: imports of the generated topic file (ref_path = the metadata type's file),
+   extension names on its services and messages *)
+| CTopic (t : topic) (ref_path : string) (v : verdict) (imports : list string) (exts : list string)
+(* an object (optionally an entity part) / a oneof alone in a file: message-level extension names *)
+| CShell (oneof entity : bool) (v : verdict) (imports : list string) (exts : list string).
 
 Definition decl_check (s : dstate) (v : verdict) (imports exts : list string) : bool :=
   verdict_eqb (verdict_d s) v &&
@@ -63,4 +68,13 @@ Definition c07_check (c : c07case) : bool :=
       end
   | CEnum e v imports exts => decl_check (compile_enum e) v imports exts
   | CService sv v imports exts => decl_check (compile_service sv) v imports exts
+  | CTopic t ref_path v imports exts =>
+      let s := compile_topic t in
+      verdict_eqb (verdict_d s) v &&
+      match v with
+      | VOk => set_eq (map (imp_path_with ref_path) (d_imps s)) imports && set_eq (map ext_name (d_exts s)) exts
+      | _ => true
+      end
+  | CShell oneof entity v imports exts =>
+      decl_check (if oneof then compile_oneof_shell else compile_object_shell entity) v imports exts
   end.
